@@ -689,6 +689,21 @@ impl KEnv {
         }
         Ok(buf.klen())
     }
+    /// a read that really stores into the caller's buffer (one symbolic position), so that the
+    /// model checker validates the raw slice the caller built
+    pub fn k_call_read_fill(&self, off: u64, buf: &mut [u8]) -> Qcow2Result<usize> {
+        self.rec(Rec { kind: K_BACKEND_READ, off, len: buf.len(), ..NOREC });
+        if self.fail_read.get() {
+            return Err(crate::error::Qcow2Error::from_desc(String::new()));
+        }
+        if buf.len() > 0 {
+            let i: usize = kani::any();
+            kani::assume(i < buf.len());
+            buf[i] = self.write_probe.get();
+            self.write_probe_idx.set(i);
+        }
+        Ok(buf.len())
+    }
     /// source cluster content for the copy-on-write shims (decompressed data / backing data)
     pub fn k_do_read_compressed(&self, _m: Mapping, off_in_cls: usize, buf: &mut crate::helpers::Qcow2IoBuf<u8>) -> KResult<usize> {
         self.rec(Rec { kind: K_READ, off: off_in_cls as u64, len: buf.len(), ..NOREC });
